@@ -359,10 +359,11 @@ func (p *ProofD) ChallengeContribution(pk *gabikeys.PublicKey) ([]*big.Int, erro
 	}
 
 	if p.RangeProofs != nil {
-		if p.cachedRangeStructures == nil {
-			if err := p.reconstructRangeProofStructures(pk); err != nil {
-				return nil, err
-			}
+		// Always derive the structures from the range proofs as they are now (and for this public
+		// key): structures kept from an earlier verification of this object would let range proofs
+		// that were added or changed since then go unchecked.
+		if err := p.reconstructRangeProofStructures(pk); err != nil {
+			return nil, err
 		}
 		// Range proofs are statements about hidden attributes: every carried range proof must sit at
 		// an index that has a response, otherwise it would be skipped below (or dereference nil) and
